@@ -559,16 +559,28 @@ func runPool(r *h.Run, c caseT) {
 		}
 		return sc == 0 || rec.viaCall || (rec.ret.Load() != 0 && rec.ret.Load() < sc)
 	}
+	// pending shrinks as tasks finish, so the predicate sampled in the
+	// stuck-state loop stays cheap (the sampler must not make the process look
+	// busy, least of all under the race detector)
+	var pending []*taskRec
+	for i := range tasks {
+		if mustRun(&tasks[i]) {
+			pending = append(pending, &tasks[i])
+		}
+	}
 	done := func() bool {
 		if running.Load() != 0 {
 			return false
 		}
-		for i := range tasks {
-			if mustRun(&tasks[i]) && tasks[i].nEnd.Load() == 0 {
-				return false
+		k := 0
+		for _, rec := range pending {
+			if rec.nEnd.Load() == 0 {
+				pending[k] = rec
+				k++
 			}
 		}
-		return true
+		pending = pending[:k]
+		return k == 0
 	}
 	ok, decided := waitDone(done, func() int64 { return started.Load() + ended.Load() })
 	if !decided {
@@ -972,8 +984,8 @@ func runAsync(r *h.Run, c caseT) {
 	}
 	// final state: producers returned, nobody inside, every issued function ended
 	done := func() bool {
-		if inside.Load() != 0 {
-			return false
+		if inside.Load() != 0 || ended.Load() < calls.Load() {
+			return false // cheap part: sampled in the stuck-state loop
 		}
 		for i := range fns {
 			if fns[i].issued.Load() && fns[i].nEnd.Load() == 0 {
@@ -1110,7 +1122,7 @@ func main() {
 	}
 	defer r.Finish()
 	logging.SetLogger(lg)
-	hist.Debug = func(s string) { fmt.Println(s) }
+	hist.Debug = func(s string) { fmt.Println(s) } // why a stuck-state window was rejected: into the shard log
 	taskpool.VerifSetPoint(poolHook)
 	timer.VerifSetPoint(timerHook)
 
